@@ -10,6 +10,7 @@
 -/
 import Lc.Base.Bytes
 import Lc.Spec.Chmod
+import Lc.Base.Path
 
 namespace Lc.Spec.AddFiles
 open Lc
@@ -195,6 +196,10 @@ def expectWith (acc : Bytes → Bytes → Bool) (ty name : Bytes) (opts : List (
   | some (adding, lt) =>
     if name.length < 2 || name.head? != some 47 then .unspecified
     else
+      -- the name means the clean path it spells (`/a//b/`, `/a/./b`, `/a/x/../b` all mean `/a/b`);
+      -- the root directory alone is not a name
+      let name := pathClean name
+      if name.length < 2 then .unspecified else
       let (inParent, inLast) := stars name false false false
       if inParent then .reject
       else
